@@ -29,8 +29,8 @@ CLAIMS = {
     ),
 }
 CLAIMS["C11"] = dict(
-    text="Every harness is in frame style: all writable buffers (selected column, other columns, spare capacity limb, scratch) are fully symbolic before the call; the solver decides that afterwards the selected column equals a function of the inputs only, that each of its limbs was written (zero where the size rule says so), and that no other word changed. Decided for the DFT-domain shape functions of reference/fft64/vec_znx_dft.rs (with substituted exact integer kernels, including (step, offset) selections past the input) and for the coefficient-domain families shared with C08/C09.",
-    note="n=2 and 3 columns for DFT-domain functions; floating-point leaf kernels are replaced by exact integer kernels on the bit patterns (harness type Probe), so only the repository's shape/selection/zero-fill logic is decided there. vmp/svp/convolution shape functions, NTT120 family and poulpy-core operations are outside this revision's claim.",
+    text="Every harness is in frame style: all writable buffers (selected column, other columns, spare capacity limb, scratch) are fully symbolic before the call; the solver decides that afterwards the selected column equals a function of the inputs only, that each of its limbs was written (zero where the size rule says so), and that no other word changed. Decided for the DFT-domain shape functions of reference/fft64/vec_znx_dft.rs (with substituted exact integer kernels, including (step, offset) selections past the input) for svp / vmp (incl. a non-zero limb offset, two independent output fills), for the coefficient-domain families shared with C08/C09, and for the key-switch / external product / automorphism operations of poulpy-core (two runs with independent prior output contents, shared with C12).",
+    note="n=2 and 3 columns for DFT-domain functions; floating-point leaf kernels are replaced by exact integer kernels on the bit patterns (harness type Probe), so only the repository's shape/selection/zero-fill logic is decided there. Convolution shape functions, the NTT120 family and the remaining poulpy-core operations are outside this revision's claim.",
     technique=KANI + "; frame (two-state) assertions over fully symbolic prior output contents",
     ref="DESIGN.md §5 C11",
 )
@@ -47,8 +47,8 @@ CLAIMS["C10"] = dict(
     ref="DESIGN.md §5 C10",
 )
 CLAIMS["C12"] = dict(
-    text="Scratch arena arithmetic decided for symbolic take lengths at enumerated window alignments (aligned, in-window, disjoint, exact remaining capacity; oversize requests are refused by a panic, never served outside the window; split_mut under its own precondition), and HAL (operation, *_tmp_bytes) pairs on FFT64Ref/NTT120Ref marker modules run with a scratch of EXACTLY the declared size and fully symbolic contents: no panic, no access outside the window (Kani's checks), result equal to the reference-level function (hence independent of the scratch contents).",
-    note="HAL coefficient-domain pairs only (normalize, lsh/rsh and their in-place/fused forms, rotate/automorphism/mul_xp_minus_one in place), n in {1,2,4}. poulpy-core/ckks/bin-fhe pairs, DFT-domain pairs, multi-thread variants and monotonicity are outside this revision's claim. Known finding: split_mut with a per-part length that is not a multiple of 64.",
+    text="Scratch arena arithmetic decided for symbolic take lengths at enumerated window alignments (aligned, in-window, disjoint, exact remaining capacity; oversize requests are refused by a panic, never served outside the window; split_mut under its own precondition), and HAL (operation, *_tmp_bytes) pairs on FFT64Ref/NTT120Ref marker modules run with a scratch of EXACTLY the declared size and fully symbolic contents: no panic, no access outside the window (Kani's checks), result equal to the reference-level function (hence independent of the scratch contents). poulpy-core pairs on Module<Probe> at N=8: key-switch, external product, automorphism and their in-place / fused forms (same and mismatched key radix, dsize 1..3, ranks 1..2) run twice with independent symbolic scratch fills of exactly the declared size and independent prior outputs give identical results; GLWE encrypt/decrypt with exactly the declared sizes at N=8.",
+    note="HAL coefficient-domain pairs only (normalize, lsh/rsh and their in-place/fused forms, rotate/automorphism/mul_xp_minus_one in place), n in {1,2,4}. The other poulpy-core / ckks / bin-fhe pairs, DFT-domain HAL pairs, multi-thread variants and monotonicity are outside this revision's claim. Known findings: split_mut with a per-part length that is not a multiple of 64; poulpy-core size queries omit the 64-byte re-alignment of nested takes (refused at N<8).",
     technique=KANI + "; exact-size scratch window with symbolic contents, reference-level function as oracle",
     ref="DESIGN.md §5 C12",
 )
@@ -59,14 +59,14 @@ CLAIMS["C17"] = dict(
     ref="DESIGN.md §5 C17",
 )
 CLAIMS["C01"] = dict(
-    text="(i) LWE secret-key encryption followed by decryption, through the real poulpy-core code on a marker module (no DFT involved): for concrete ternary secrets and symbolic message digits, mask words and error (within the configured bound), with a scratch of exactly the declared size and symbolic contents, decrypt(encrypt(m)) - m is e*2^-k with |e| <= bound, and e is exactly the sampled error (injected once, at 2^-k). (ii) the error sampler kernels enforce the bound for every bound in [1,2^62) and every draw (incl. NaN/inf), fill overwrites / add adds; (iii) the error lands on limb ceil(k/b)-1 of the selected column with scale exactly 2^((limb+1)b-k).",
-    note="GLWE secret-/public-key and compressed encryption run through DFT products and are outside (DESIGN §2.4: the kernel-substitution backend does not finish). Randomness is stubbed at Source::next_u64n and at the Gaussian limb kernel; f64::exp2/log2 replaced by exact/constant models; LWE dimension 2, limb counts <= 3.",
+    text="(0) GLWE secret-key encryption followed by decryption through the real poulpy-core code, the real HAL defaults and the real fft64 shape functions on Module<Probe> (the repository's own hal_impl_*! macros instantiated over ten substituted leaf kernels: identity transform + exact integer arithmetic on the f64 bit patterns): at N=2, where the size-1 FFT IS the identity and the substituted backend is the exact model of FFT64 up to IEEE rounding, and at N=8 (ring Z[i]^4; the statement is ring-generic), for concrete ternary secrets, symbolic message digits, mask words and error: decrypt(encrypt(m)), read in the output plaintext's own radix/precision (equal, narrower, other radix), is m + e*2^-k within one unit of that plaintext's last limb, e exactly the sampled error; and glwe_decrypt alone, on fully symbolic ciphertexts of ranks 1..3, equals an independent exact negacyclic phase oracle (stub-free, every counterexample replays natively). (i) LWE secret-key encryption followed by decryption, through the real poulpy-core code on a marker module (no DFT involved): for concrete ternary secrets and symbolic message digits, mask words and error (within the configured bound), with a scratch of exactly the declared size and symbolic contents, decrypt(encrypt(m)) - m is e*2^-k with |e| <= bound, and e is exactly the sampled error (injected once, at 2^-k). (ii) the error sampler kernels enforce the bound for every bound in [1,2^62) and every draw (incl. NaN/inf), fill overwrites / add adds; (iii) the error lands on limb ceil(k/b)-1 of the selected column with scale exactly 2^((limb+1)b-k).",
+    note="Public-key encryption, IEEE rounding / the FFT for N>=4 (C07) and ring degrees above 8 are outside; compressed encryption is decided under C19. The private take_slice_aligned is replaced in whole-operation harnesses by a copy that derives the padding from the window offset inside the aligned harness arena (same function there; keeps scratch offsets constant for CBMC: 30x faster); the real one is decided under C12. Randomness is stubbed at Source::next_u64n and at the Gaussian limb kernel; f64::exp2/log2 replaced by exact/constant models; LWE dimension 2, limb counts <= 3.",
     technique=KANI + "; randomness replaced by symbolic stubs, exact-size symbolic scratch",
     ref="DESIGN.md §5 C01",
 )
 CLAIMS["C06"] = dict(
-    text="Deterministic core of fresh randomness: the uniform digit kernel maps the masked random word bijectively onto [-2^(b-1),2^(b-1)) for every radix 1..63 and consumes exactly one word per coefficient (its rejection loop is dead for the arguments the call site passes); vector-level uniform fill writes every limb of the selected column only; the Gaussian kernels respect the bound and the error is placed on the limb and with the scale that put it at 2^-k (shared with C01); through the LWE round trip the decryption error equals the sampled error exactly, so 'no error', 'error at a lower position' or 'error added twice' are violations.",
-    note="Statistical clauses (empirical sigma, uniformity as a frequency), ChaCha8/ziggurat themselves, seed branching and the GLWE/GGLWE/GGSW encryption information flow (DFT products) are outside this family of technique / this revision.",
+    text="Deterministic core of fresh randomness: the uniform digit kernel maps the masked random word bijectively onto [-2^(b-1),2^(b-1)) for every radix 1..63 and consumes exactly one word per coefficient (its rejection loop is dead for the arguments the call site passes); vector-level uniform fill writes every limb of the selected column only; the Gaussian kernels respect the bound and the error is placed on the limb and with the scale that put it at 2^-k (shared with C01); through the LWE and the GLWE (Module<Probe>, N=2) round trips the decryption error equals the sampled error exactly, so 'no error', 'error at a lower position' or 'error added twice' are violations; compressed GGLWE encryption stores pairwise distinct per-cell mask seeds under a stream model in which a re-created generator repeats its branch seeds.",
+    note="Statistical clauses (empirical sigma, uniformity as a frequency), ChaCha8/ziggurat themselves, the other key-material encryptors and two-run non-interference statements (mask independent of plaintext/secret) are outside this revision.",
     technique=KANI + "; random stream replaced by symbolic words at Source::next_u64n",
     ref="DESIGN.md §5 C06",
 )
@@ -83,9 +83,9 @@ CLAIMS["C16"] = dict(
     ref="DESIGN.md §5 C16",
 )
 CLAIMS["C03"] = dict(
-    text="Galois-element arithmetic only: galois_element is decided to be the signed multiplicative map g -> sign(g)*5^|g| mod 2N (ge(0)=1, ge(1)=5, ge(g1)ge(g2)=ge(g1+g2) for all exponents below 2^12, ge(-g)=-ge(g), odd residues in range) for log N <= 12, and galois_element_inv to be the inverse in (Z/2N)* with the same sign convention for every odd element, log N <= 16.",
-    note="NARROW: everything else the property states (gadget products of GLWE/GGLWE/GGSW/LWE key-switching, automorphism/trace/packing values, noise bounds) runs through DFT products that this family of technique could not encode within reach (DESIGN §2.4); none of it is claimed.",
-    technique=KANI + " (integer arithmetic of module.rs only)",
+    text="(a) GLWE key-switch, out of place and in place, through the real poulpy-core code on Module<Probe> at N=8 (vector-matrix products need N>=8; the substituted backend multiplies in Z[i]^4, the statement is ring-generic and oracle-free): glwe_decrypt(glwe_keyswitch(ct, KSK(s_in->s_out)), s_out) == glwe_decrypt(ct, s_in) exactly on the torus, the switching key produced by the real glwe_switching_key_encrypt_sk + prepare from concrete ternary secrets with zero noise, exact-size symbolic key-switch scratch, symbolic prior output; input ciphertext = fixed digit pattern with 2 symbolic words (quick) / all words symbolic (thorough). (b) the fused automorphism forms equal autom(a)+a, autom(a)-a, a-autom(a) against the plain automorphism with the same key (Galois elements -1,3,5). (c) Galois-element arithmetic: galois_element is decided to be the signed multiplicative map g -> sign(g)*5^|g| mod 2N (ge(0)=1, ge(1)=5, ge(g1)ge(g2)=ge(g1+g2) for all exponents below 2^12, ge(-g)=-ge(g), odd residues in range) for log N <= 12, and galois_element_inv to be the inverse in (Z/2N)* with the same sign convention for every odd element, log N <= 16.",
+    note="The VALUE of automorphism / trace / packing / sample extraction needs the negacyclic ring at N>=8 (X->X^g is not a ring map of the substituted ring) and is outside, as are GGLWE/GGSW/LWE key-switch, noise variance bounds and radix-mismatched phase statements; radix mismatch is exercised by the frame harnesses of C12.",
+    technique=KANI + "; real poulpy-core code on a substituted-kernel backend, metamorphic (oracle-free) phase statement",
     ref="DESIGN.md §5 C03",
 )
 CLAIMS["C14"] = dict(
@@ -95,8 +95,8 @@ CLAIMS["C14"] = dict(
     ref="DESIGN.md §5 C14",
 )
 CLAIMS["C19"] = dict(
-    text="Decompression side of seed-compressed GLWE: decompress_glwe is decided to copy the body unchanged, to create the mask generator exactly once from the object's stored seed, to draw exactly n*size words per mask column in column order (so the stream lines up with what compressed encryption drew) and to write digits of the object's radix, for symbolic body, seed, mask words and prior receiver contents; a receiver of a different layout is refused (panic) rather than filled from a mis-aligned stream.",
-    note="NARROW: bit-identity with standard encryption needs the compressed/standard encryption paths (DFT products) and is outside (DESIGN §2.4); GGLWE/GGSW/key decompressors delegate to decompress_glwe cell by cell but their own seed bookkeeping is not encoded. Source::new and Source::next_u64n are stubbed.",
+    text="Encryption side (Module<Probe>, N=2): decompress_glwe(glwe_compressed_encrypt_sk(pt, seed)) is limb for limb glwe_encrypt_sk(pt) run with the mask generator Source::new(seed) and the same error stream; every cell of decompress_gglwe(gglwe_compressed_encrypt_sk(pt, seed)) decrypts (noise-free) to exactly the plaintext of the same cell of gglwe_encrypt_sk(pt) for dsize 1..3, dnum 1..4, ranks 1..2. Decompression side of seed-compressed GLWE: decompress_glwe is decided to copy the body unchanged, to create the mask generator exactly once from the object's stored seed, to draw exactly n*size words per mask column in column order (so the stream lines up with what compressed encryption drew) and to write digits of the object's radix, for symbolic body, seed, mask words and prior receiver contents; a receiver of a different layout is refused (panic) rather than filled from a mis-aligned stream.",
+    note="The generator is a stream model (same seed -> same words, different seed -> different words, a re-created parent repeats its branch seeds); natively the real ChaCha8 runs. GGSW/switching/automorphism/tensor/LWE/blind-rotation key compressors, serialisation of compressed matrices and N>2 are outside.",
     technique=KANI + "; random source replaced by recording/counting stubs",
     ref="DESIGN.md §5 C19",
 )
@@ -107,8 +107,8 @@ CLAIMS["C07"] = dict(
     ref="DESIGN.md §5 C07",
 )
 NA = {
-    "C04": "External products / CMux / GGSW expansion are statements about ring products computed through the DFT; no bounded integer fragment can be separated from those products, and the kernel-substitution backend that would make them integer does not finish under Kani/CBMC (5 configurations tried, DESIGN §2.4).",
-    "C05": "Tensor product, relinearisation, plaintext/constant multiplication run through the DFT convolution with two symbolic operands (symbolic x symbolic 64-bit products plus floating point); same kernel-substitution attempt does not finish (DESIGN §2.4).",
+    "C04": "The statement is about the VALUE m1*m2 in Z[X]/(X^N+1). External products need vector-matrix products, which exist only for N>=8; there the exact-kernel backend this work can run under CBMC (Module<Probe>) multiplies in Z[i]^(N/2), not in the negacyclic ring, and the real FFT is symbolic floating point out of reach. What is decidable of the external product (exact declared scratch, independence of scratch and prior output, in-place = out-of-place) is decided under C11/C12 (core.external_product*); a ring-generic m1*m2 statement over the substituted ring would need a GGSW encryptor harness that was not built in the time available.",
+    "C05": "Tensor product, relinearisation, plaintext/constant multiplication run through the bivariate DFT convolution with two symbolic operands (symbolic x symbolic 64-bit products, block kernels at N>=8 where the substituted backend no longer multiplies in the negacyclic ring, floating point in the real one); the convolution shape functions were not encoded.",
     "C15": "End-to-end bootstrapping pipeline (key-switch, blind rotation, trace, external products at bootstrapping parameters); its plaintext-level word semantics is C13, nothing else of it is a bounded integer computation within reach of CBMC/z3.",
     "C20": "Quantifies over thread schedules of std::thread::scope workers; Kani/CBMC has no model of Rust threads (thread::scope/spawn are unsupported constructs) and the chunk arithmetic lives inside the spawning closure. The sequential ingredients are decided under C11/C12.",
 }
@@ -139,7 +139,7 @@ m = {
         "guard": "verif-hooks (cargo feature of the same name on poulpy-bin-fhe, poulpy-core and poulpy-ckks; off by default, not a default feature of any crate)",
         "enable": "harness crates hk_core / hk_ckks / hk_binfhe and smt/bdd_dump depend on the /repo crates by path with features=[\"verif-hooks\"]; hk_hal and hk_avx need no hook",
         "baseline_off_cmd": "cd /repo && cargo test --workspace --no-fail-fast --offline",
-        "source_commits": ["87db623", "9db2020", "6ee2064", "a8383a3", "fbcca4f"],
+        "source_commits": ["87db623", "9db2020", "6ee2064", "a8383a3", "fbcca4f", "3ebb77d"],
         "add_only": True,
     },
     "engines": [
